@@ -20,13 +20,13 @@ func init() {
 		Title: "Applying updates is exact, composable and agrees with geometry-at-time",
 		Explanation: "Structural necessary conditions, decided by finite-domain evaluation of the control-flow graphs of every exported function of package osm that has a time parameter t and reaches (itself or through unexported helpers) a loop over an osm.Updates value: " +
 			"(U1) each such loop, evaluated for the element's Timestamp before / equal to / after t, treats an update after t by paths that all return to the loop head (no break, return, panic) with effects disjoint from the in-time effects, and treats `before` and `equal` alike (stored order is index order, not time order); a loop over the result of a function verified to return exactly the in-time elements of its input in order (Updates.UpTo, or one result of a splitter helper), called with t, counts as already classified; " +
-			"(U2) in ApplyUpdatesUpTo the only effect for an update after t is `P = append(P, u)` on every path, P has no other non-empty assignment and is stored back into the scanned Updates field before every success return; every update at or before t reaches the call that applies it, and a non-nil error of that call always reaches a return that carries it; " +
+			"(U2) in ApplyUpdatesUpTo the only effect for an update after t is `P = append(P, u)` on every path, P has no other non-empty assignment and is stored back into the scanned Updates field before every success return and never on a path that returns an error (a list that a helper returns together with an error is stored exactly when that error is nil); every update at or before t reaches the call that applies it, and a non-nil error of that call always reaches a return that carries it; " +
 			"(U3) every X[u.Index] is controlled by a test that establishes u.Index < len(X) (in the function or at every call site of an unexported function), and for an in-time update whose Index is out of range ApplyUpdatesUpTo ends in a return with a non-nil error on every path; " +
 			"(U4) the code reached from ApplyUpdatesUpTo assigns exactly Version, ChangesetID, Lat, Lon of <receiver>.<children>[u.Index] from the same-named fields of the scanned update on every success path of an in-range update, negates Orientation exactly when u.Reverse holds, and LineStringAt writes the update's coordinates into the point slots WayNode.Point uses; " +
 			"(U5) every return with a nil error / normal result of these functions is dominated by the normal exit of the loop over the update list (or is taken under an empty-list test), and the loop has no break: no shortcut skips the scan. " +
-			"The rules look through unexported helpers, predicate helpers, boolean locals, pointer aliases, merged / inverted / switch-form guards, index loops and renamed locals. " +
-			"NOT decided: composability t1 then t2 and geometry equality as values; negative update indices; which error type reports an out-of-range index; scans moved into function literals or called through function values (the API anchor then fails instead of passing); the state left behind when ApplyUpdatesUpTo returns an error; behaviour of callers outside package osm.",
-		Assumptions: []string{"go/types, go/cfg (x/tools v0.29.0)", "semantics of time.Time.After/Before/Equal/Compare", "orb.Point is [2]float64", "static calls inside package osm resolve to the declared function (no function values for the helpers)"},
+			"The rules look through unexported helpers, predicate helpers, boolean locals, pointer aliases, merged / inverted / switch-form guards, index loops and renamed locals, and through calls of function values: a function-typed parameter (or single-definition local) is followed to the method value, function name or function literal bound at the call site, and the callee is evaluated with that value bound (receiver / captured variables read where the value was formed). " +
+			"NOT decided: composability t1 then t2 and geometry equality as values; negative update indices; which error type reports an out-of-range index; function values that are stored in fields, returned from calls or assigned more than once (the call is then opaque: an effect whose callee is unknown, and the API anchor or the apply obligation fails instead of passing); which children were already changed when ApplyUpdatesUpTo returns an error; behaviour of callers outside package osm.",
+		Assumptions: []string{"go/types, go/cfg (x/tools v0.29.0)", "semantics of time.Time.After/Before/Equal/Compare", "orb.Point is [2]float64", "static calls inside package osm resolve to the declared function; a function-typed parameter holds the value bound at the call site being followed"},
 		LevelText:   "Structural necessary conditions of the update-application semantics, decided by evaluating the CFG of every time-bounded scan of an osm.Updates list for the abstract inputs {Timestamp before, equal, after t} x {Index in range, out of range} x {Reverse true, false}: skip-not-stop on too-late updates, inclusive bound, pending list kept in order and stored back, in-time updates applied with error propagation, index guard, out-of-range reported, field copy agreement, orientation flip, geometry slots, no success exit before the scan completed. Value-level composability and geometry equality are not decided.",
 		LevelNote:   "Trusts the Go type checker and go/cfg; semantics of time.Time comparisons; rules cover package osm only (the loops the property names). Helpers are followed through static calls to depth 4; anything else is reported as undecided.",
 		Technique:   "finite-domain evaluation of per-function CFGs (go/cfg) under three-valued oracles, with interprocedural parameter binding, alias-resolved access paths and guard facts",
@@ -38,7 +38,7 @@ func init() {
 			{ID: "U4", Floor: 5, Doc: "child field copies / orientation flip reached from ApplyUpdatesUpTo and point slots in LineStringAt agree, unconditionally for in-range in-time updates", Run: c15U4},
 			{ID: "U5", Floor: 4, Doc: "no success exit of a time-bounded scan before the loop over the update list has completed", Run: c15U5},
 		},
-		Mutants: []core.Mutant{
+		Mutants: append([]core.Mutant{
 			{Name: "way-apply-break", File: "way.go", Find: "notApplied = append(notApplied, u)\n\t\t\tcontinue", Replace: "notApplied = append(notApplied, u)\n\t\t\tbreak", ExpectRule: "U1", ExpectConstruct: "(*Way).ApplyUpdatesUpTo"},
 			{Name: "upto-break", File: "update.go", Find: "if u.Timestamp.After(t) {\n\t\t\tcontinue", Replace: "if u.Timestamp.After(t) {\n\t\t\tbreak", ExpectRule: "U1", ExpectConstruct: "Updates.UpTo"},
 			{Name: "upto-before", File: "update.go", Find: "if u.Timestamp.After(t) {\n\t\t\tcontinue", Replace: "if u.Timestamp.Before(t) {\n\t\t\tcontinue", ExpectRule: "U1", ExpectConstruct: "Updates.UpTo"},
@@ -65,8 +65,8 @@ func init() {
 			{Name: "rel-early-success", File: "relation.go", Find: "func (r *Relation) ApplyUpdatesUpTo(t time.Time) error {\n", Replace: "func (r *Relation) ApplyUpdatesUpTo(t time.Time) error {\n\tif t.Before(r.Timestamp) {\n\t\treturn nil\n\t}\n", ExpectRule: "U5", ExpectConstruct: "complete@(*Relation).ApplyUpdatesUpTo"},
 			{Name: "lsat-early-result", File: "way.go", Find: "func (w *Way) LineStringAt(t time.Time) orb.LineString {\n", Replace: "func (w *Way) LineStringAt(t time.Time) orb.LineString {\n\tif t.Before(w.Timestamp) {\n\t\treturn w.LineString()\n\t}\n", ExpectRule: "U5", ExpectConstruct: "complete@(*Way).LineStringAt"},
 			{Name: "way-first-only", File: "way.go", Find: "\t\tif err := w.applyUpdate(u); err != nil {\n\t\t\treturn err\n\t\t}\n\t}", Replace: "\t\treturn w.applyUpdate(u)\n\t}", ExpectRule: "U5", ExpectConstruct: "complete@(*Way).ApplyUpdatesUpTo"},
-		},
-		Benign: c15Benign,
+		}, c15Mutants2...),
+		Benign: append(append([]core.Mutant{}, c15Benign...), c15Benign2...),
 	})
 }
 
